@@ -97,8 +97,14 @@ func ZZ_C18_emit_value_table_helpers() {
 	if err != nil {
 		return
 	}
-	f32s := []float32{zz.F32("f0"), zz.F32("f1"), zz.F32("f2"), zz.F32("f3"), zz.F32("f4")}
-	i32s := []int32{zz.I32("i0"), zz.I32("i1"), zz.I32("i2"), zz.I32("i3"), zz.I32("i4")}
+	// two of the five literal slots are symbolic (one used by a helper, one by a later function
+	// or the entry point); the others keep distinct concrete values
+	a, b := zz.Choice("slot-a", 5), zz.Choice("slot-b", 5)
+	zz.Assume(a < b)
+	f32s := []float32{100.5, 101.5, 102.5, 103.5, 104.5}
+	i32s := []int32{1000, 1001, 1002, 1003, 1004}
+	f32s[a], f32s[b] = zz.F32("fa"), zz.F32("fb")
+	i32s[a], i32s[b] = zz.I32("ia"), zz.I32("ib")
 	zzSymbolicLiterals(mod, f32s, i32s)
 	problems, ok := zzEmitModule(mod)
 	if !ok {
